@@ -25,7 +25,7 @@ import (
 	"github.com/google/pprof/verif/internal/wire"
 )
 
-var strPool = []string{"", "a", "b", "\xff", "x\x00y", "kb", "bytes", "é", "line\nbreak", strings.Repeat("L", 300), "/proc/self/cwd", "/proc/self/cwd/."}
+var strPool = []string{"", "a", "b", "\xff", "x\x00y", "kb", "bytes", "é", "line\nbreak", strings.Repeat("L", 300), "/proc/self/cwd", "/proc/self/cwd/.", "/bin/prog (deleted)", "request", "alignment"}
 var idPool = []uint64{1, 2, 3, 4, 5, 6, 7, 8, 9, 1 << 32, 1 << 63, math.MaxUint64, 1000, 1<<63 - 1}
 var i64Pool = []int64{0, 1, -1, 2, 127, 128, 16383, 16384, math.MaxInt64, math.MinInt64, 1 << 40, -(1 << 40)}
 
